@@ -422,26 +422,7 @@ func ErrorsVoidResult(p *load.Prog, r *oblig.Report, rule string, fn *ssa.Functi
 	n := 0
 	for _, ret := range SuccessReturns(fn) {
 		n++
-		ok := false
-		for _, ce := range DominatingConds(ret.Block()) {
-			bo, isB := ce.Cond.(*ssa.BinOp)
-			if !isB {
-				continue
-			}
-			path := AccessPath(bo.X)
-			other := bo.Y
-			if c, isC := bo.X.(*ssa.Const); isC && c.IsNil() {
-				path, other = AccessPath(bo.Y), bo.X
-			}
-			c, isC := other.(*ssa.Const)
-			if !isC || !c.IsNil() || !strings.HasSuffix(path, "#1.Errors") || !strings.Contains(path, "ParseDSL") && !fromParseDSL(bo) {
-				continue
-			}
-			if (bo.Op == token.NEQ && !ce.Branch) || (bo.Op == token.EQL && ce.Branch) {
-				ok = true
-			}
-		}
-		if ok {
+		if successGuarded(ret.Block(), 0) {
 			r.OK(rule, construct, p.Pos(ret.Pos()), "dominated-by-Errors==nil", "")
 		} else {
 			r.Bad(rule, construct, p.Pos(ret.Pos()), "a model is returned without the guard `errorListener.Errors == nil`: a document with collected errors can still yield a model")
@@ -450,6 +431,55 @@ func ErrorsVoidResult(p *load.Prog, r *oblig.Report, rule string, fn *ssa.Functi
 	if n == 0 {
 		r.Unknown(rule, construct, p.Pos(fn.Pos()), "no successful return found")
 	}
+}
+
+// successGuarded: the block is reached only when ParseDSL's error listener collected nothing — directly
+// (Errors == nil on the listener ParseDSL returned) or through the nil error of a repository helper all of
+// whose own successful returns are guarded in the same way.
+func successGuarded(b *ssa.BasicBlock, depth int) bool {
+	if depth > 3 {
+		return false
+	}
+	for _, ce := range DominatingConds(b) {
+		bo, isB := ce.Cond.(*ssa.BinOp)
+		if !isB {
+			continue
+		}
+		x, other := bo.X, bo.Y
+		if c, isC := bo.X.(*ssa.Const); isC && c.IsNil() {
+			x, other = bo.Y, bo.X
+		}
+		c, isC := other.(*ssa.Const)
+		if !isC || !c.IsNil() {
+			continue
+		}
+		isNilBranch := (bo.Op == token.NEQ && !ce.Branch) || (bo.Op == token.EQL && ce.Branch)
+		if !isNilBranch {
+			continue
+		}
+		path := AccessPath(x)
+		if strings.HasSuffix(path, "#1.Errors") && (strings.Contains(path, "ParseDSL") || fromParseDSL(bo)) {
+			return true
+		}
+		// err == nil with err the error result of a guarded helper
+		if ex, ok := x.(*ssa.Extract); ok {
+			if call, ok := ex.Tuple.(*ssa.Call); ok {
+				if h := call.Common().StaticCallee(); h != nil && load.InRepo(h) && len(h.Blocks) > 0 && returnsError(h) == ex.Index {
+					rets := SuccessReturns(h)
+					okAll := len(rets) > 0
+					for _, hr := range rets {
+						if !successGuarded(hr.Block(), depth+1) {
+							okAll = false
+						}
+					}
+					if okAll {
+						return true
+					}
+				}
+			}
+		}
+	}
+	return false
 }
 
 func fromParseDSL(bo *ssa.BinOp) bool {
@@ -498,83 +528,81 @@ func ListenerWiring(p *load.Prog, r *oblig.Report, rule string) {
 		r.Unknown(rule, "wiring:ParseDSL", p.Pos(fn.Pos()), "ParseDSL does not have exactly one return of two values")
 		return
 	}
-	model, errl := rets[0].Results[0], rets[0].Results[1]
-	unwrap := func(v ssa.Value) ssa.Value {
-		for {
-			switch x := v.(type) {
-			case *ssa.MakeInterface:
-				v = x.X
-				continue
-			case *ssa.ChangeInterface:
-				v = x.X
-				continue
-			}
-			return v
-		}
-	}
+	rs := NewResolver(fn)
+	unwrap := rs.Res
+	model, errl := unwrap(rets[0].Results[0]), unwrap(rets[0].Results[1])
 	added := map[string]bool{}
 	removed := map[string]bool{}
 	walked := false
-	for _, b := range fn.Blocks {
-		for _, in := range b.Instrs {
-			call, ok := in.(ssa.CallInstruction)
-			if !ok {
-				continue
-			}
-			cc := call.Common()
-			name := ""
-			var recv ssa.Value
-			var args []ssa.Value
-			if cc.IsInvoke() {
-				name, recv, args = cc.Method.Name(), cc.Value, cc.Args
-			} else if c := cc.StaticCallee(); c != nil && c.Signature.Recv() != nil && len(cc.Args) > 0 {
-				name, recv, args = c.Name(), cc.Args[0], cc.Args[1:]
-			}
-			kind := ""
-			// the receiver is (a part of) the object created by NewOpenFGALexer / NewOpenFGAParser
-			for root := recv; root != nil; {
-				switch x := root.(type) {
-				case *ssa.FieldAddr:
-					root = x.X
+	// ParseDSL and the helpers of its package it reaches, in call order (a helper's body stands where it is called)
+	var visit func(f *ssa.Function, depth int)
+	visit = func(f *ssa.Function, depth int) {
+		for _, b := range f.DomPreorder() {
+			for _, in := range b.Instrs {
+				call, ok := in.(ssa.CallInstruction)
+				if !ok {
 					continue
-				case *ssa.UnOp:
-					root = x.X
-					continue
-				case *ssa.MakeInterface:
-					root = x.X
-					continue
-				case *ssa.Call:
-					if c := x.Common().StaticCallee(); c != nil {
-						switch {
-						case strings.Contains(c.Name(), "Lexer"):
-							kind = "lexer"
-						case strings.Contains(c.Name(), "Parser"):
-							kind = "parser"
-						}
+				}
+				cc := call.Common()
+				if c := cc.StaticCallee(); c != nil && c.Pkg == fn.Pkg && c.Signature.Recv() == nil && len(c.Blocks) > 0 && depth < 3 && c != fn {
+					isCtor := strings.HasPrefix(c.Name(), "New") || strings.HasPrefix(c.Name(), "new") && strings.Contains(c.Name(), "Listener")
+					if !isCtor || strings.Contains(c.Name(), "Parser") || strings.Contains(c.Name(), "Lexer") {
+						visit(c, depth+1)
 					}
 				}
-				break
-			}
-			switch name {
-			case "AddErrorListener":
-				if len(args) == 1 && unwrap(args[0]) == errl && kind != "" {
-					added[kind] = true
+				name := ""
+				var recv ssa.Value
+				var args []ssa.Value
+				if cc.IsInvoke() {
+					name, recv, args = cc.Method.Name(), cc.Value, cc.Args
+				} else if c := cc.StaticCallee(); c != nil && c.Signature.Recv() != nil && len(cc.Args) > 0 {
+					name, recv, args = c.Name(), cc.Args[0], cc.Args[1:]
 				}
-			case "RemoveErrorListeners":
-				if kind != "" && !added[kind] {
-					removed[kind] = true
+				kind := ""
+				// the receiver is (a part of) the object created by NewOpenFGALexer / NewOpenFGAParser
+				for root := recv; root != nil; {
+					root = unwrap(root)
+					switch x := root.(type) {
+					case *ssa.FieldAddr:
+						root = x.X
+						continue
+					case *ssa.UnOp:
+						root = x.X
+						continue
+					case *ssa.Call:
+						if c := x.Common().StaticCallee(); c != nil {
+							switch {
+							case strings.Contains(c.Name(), "Lexer"):
+								kind = "lexer"
+							case strings.Contains(c.Name(), "Parser"):
+								kind = "parser"
+							}
+						}
+					}
+					break
 				}
-			case "Walk":
-				if len(args) == 2 && unwrap(args[0]) == model {
-					if c, ok := unwrap(args[1]).(*ssa.Call); ok {
-						if cal := c.Common().StaticCallee(); cal != nil && cal.Name() == "Main" {
-							walked = true
+				switch name {
+				case "AddErrorListener":
+					if len(args) == 1 && unwrap(args[0]) == errl && kind != "" {
+						added[kind] = true
+					}
+				case "RemoveErrorListeners":
+					if kind != "" && !added[kind] {
+						removed[kind] = true
+					}
+				case "Walk":
+					if len(args) == 2 && unwrap(args[0]) == model {
+						if c, ok := unwrap(args[1]).(*ssa.Call); ok {
+							if cal := c.Common().StaticCallee(); cal != nil && cal.Name() == "Main" {
+								walked = true
+							}
 						}
 					}
 				}
 			}
 		}
 	}
+	visit(fn, 0)
 	for _, kind := range []string{"lexer", "parser"} {
 		construct := "error-listener-attached:" + kind
 		switch {
